@@ -63,6 +63,24 @@ def cases(ctx):
                     e[2] = 'dup'
         else:
             d2 = rename(gen.random_dfa(rng, 5, Sig), lambda q: 'r_' + q)
+        if len(Sig) >= 2 and rng.random() < 0.15:
+            # a state of D1 whose a- and b-successor coincide; D2 = renamed copy that sends b to a (possibly altered) duplicate
+            p0 = rng.choice(d1['Q'])
+            a0, b0 = rng.sample(sorted(Sig), 2)
+            t0 = [t for (p, a, t) in d1['delta'] if p == p0 and a == a0][0]
+            for e in d1['delta']:
+                if e[0] == p0 and e[1] == b0:
+                    e[2] = t0
+            d2 = rename(d1, lambda q: 'r_' + q)
+            d2['Q'].append('dup')
+            d2['delta'] += [['dup', a, t] for (p, a, t) in list(d2['delta']) if p == 'r_' + t0]
+            if 'r_' + t0 in d2['F']:
+                d2['F'].append('dup')
+            for e in d2['delta']:
+                if e[0] == 'r_' + p0 and e[1] == b0:
+                    e[2] = 'dup'
+            if rng.random() < 0.5:
+                rng.choice([e for e in d2['delta'] if e[0] == 'dup'])[2] = rng.choice(d2['Q'])
         if rng.random() < 0.2:          # the empty string is a legal (falsy) state name
             q = rng.choice(d2['Q'] if r >= 0.35 or rng.random() < 0.7 else d1['Q'])
             if q in d2['Q']:
